@@ -45,6 +45,8 @@ def render(labels, r):
         return [TOK[x] for x in labels]
     if r == 'mixed':
         return [MIXED[x] for x in labels]
+    if r == 'tok7':
+        return ['t%d' % x for x in labels]
     raise ValueError(r)
 
 
@@ -76,7 +78,25 @@ def shards(tier):
     for L in range(0, b['Lc'] + 1):
         out.append({'kind': 'costs', 'L': L})
     out.append({'kind': 'agg'})
+    for n in LONG_N[tier if tier in LONG_N else 'quick']:
+        out.append({'kind': 'long', 'n': n})
     return out
+
+
+LONG_N = {'quick': [130, 260], 'thorough': [130, 260, 300, 520]}      # lengths on both sides of 127 / 255 / 511 (narrow integer types)
+
+
+def long_pairs(n):
+    """structured long pairs: the same algorithms on sequences whose lengths and distances exceed 127 / 255"""
+    s = [i % 7 for i in range(n)]
+    yield s, list(s)                                   # distance 0
+    yield s, []                                        # n deletions
+    yield [], s                                        # n insertions
+    yield s, s[::2]                                    # every second symbol missing
+    yield s, [9 + (i % 3) for i in range(n)]           # n substitutions
+    yield s, s + s                                     # n insertions at the end
+    yield s, s[3:] + [9, 9, 9]                         # shifted by three
+    yield s[:n // 2] + [8] * 5 + s[n // 2:], s         # five deletions in the middle
 
 
 def agg_pool(tier):
@@ -105,6 +125,10 @@ def run_shard(shard, ctx, tier):
                         continue
                     guarded_check(mod, {'kind': 'pair', 'render': 'int' if sum(costs) % 2 else 'str', 's': g[:cut],
                                         't': g[cut:], 'costs': list(costs)}, ctx)
+    elif shard['kind'] == 'long':
+        for k, (s_, t_) in enumerate(long_pairs(shard['n'])):
+            for costs in ([1, 1, 1], [2, 3, 1]):
+                guarded_check(mod, {'kind': 'pair', 'render': 'int' if k % 2 == 0 else 'tok7', 's': s_, 't': t_, 'costs': costs, 'long': 1}, ctx)
     else:
         pool = agg_pool(tier)
         idx = range(len(pool))
@@ -136,8 +160,10 @@ def check_pair(case, ctx):
     s, t = render(case['s'], r), render(case['t'], r)
     sub, ins, dele = case['costs']
     unit = (sub, ins, dele) == (1, 1, 1)
-    ctx.state((r, case['s'], case['t']))
+    ctx.state((r, tuple(case['s']), tuple(case['t'])) if case.get('long') else (r, case['s'], case['t']))
     want = wagner_fischer(s, t, sub, ins, dele)
+    if case.get('long'):
+        ctx.tag('sequences-longer-than-255')
     K = f'{ID}/{r}'
     if not unit:
         K += '/costs'
@@ -213,6 +239,15 @@ def check_pair(case, ctx):
     if not unit:
         return
 
+    if case.get('long'):
+        from pero_ocr.error_summary import ErrorsSummary
+        es = ErrorsSummary.from_lists(list(s), list(t))
+        ctx.executed()
+        if es.nb_subs + es.nb_inss + es.nb_dels != want or es.nb_errors != want or es.ref_len != len(s):
+            ctx.violation('summary-counts-add-up-to-distance', f'{K}/summary/counts',
+                          f'ErrorsSummary.from_lists on sequences of length {len(s)} / {len(t)}: subs={es.nb_subs} ins={es.nb_inss} dels={es.nb_dels} '
+                          f'errors={es.nb_errors} ref_len={es.ref_len}; distance={want}')
+        return                                         # (the brute-force substring oracle is quartic)
     # --- substring variants (unit costs): optimal over all substrings of the longer sequence
     if len(t) > len(s):
         cands = [best_substring_distance(t, s)]
@@ -353,5 +388,5 @@ def describe(tier):
                         'for equal-length inputs either sequence may play the role of "the longer sequence"',
                         'sequences longer than the bound and costs above 4 are not explored'],
         'min_nontrivial': 10,
-        'required_tags': ['optimum-beats-diagonal', 'substring-beats-whole', 'aggregate-of-several', 'other-containers'],
+        'required_tags': ['optimum-beats-diagonal', 'substring-beats-whole', 'aggregate-of-several', 'other-containers', 'sequences-longer-than-255'],
     }
